@@ -14,9 +14,10 @@
    * trial ids are 0,1,2,... = positions in [trials] (TrialBackend.new_trial_id
      is len(trial_ids)); dicts keyed by trial id are association lists.
    * the benchmark table is  configuration index -> seed -> list of rows, the
-     k-th row (k = 0,1,..) belonging to fidelity (resource level) k+1
-     (BlackboxTabular's default fidelity_values 1..num_fidelities).  A row is the
-     value of the elapsed-time column and the values of all other objectives.
+     k-th row (k = 0,1,..) belonging to the k-th entry of [fidelities] (the
+     blackbox's fidelity_values: 1..num_fidelities by default, any list of
+     resource levels in general; results are selected by level VALUE).  A row is
+     the value of the elapsed-time column and the values of all other objectives.
    * the event heap (heapq with keys (time, insertion counter)) is a list kept
      sorted by that key; proofs/SimProofs.v shows pop order = sorted order.
    * real time spent outside the backend (time.time() differences) is an input
@@ -90,7 +91,8 @@ Record settings := mkSet {
   checkpointing : bool;            (* support_checkpointing *)
   fixed_seed : option nat;         (* seed argument of the backend *)
   eps : Q;                         (* the literal 0.01 of the monotonicity repair *)
-  nudge : Q                        (* the literal 1e-3 of _stop_or_pause_trial *)
+  nudge : Q;                       (* the literal 1e-3 of _stop_or_pause_trial *)
+  fidelities : list nat            (* blackbox.fidelity_values: the resource level of the k-th row *)
 }.
 
 Definition init_state : state := mkSt 0 [] 0 [] [] [] [] [] [].
@@ -164,13 +166,16 @@ Variable tbl : table.
 Variable draw : nat -> nat.
 
 (* ---- table lookup and _run_job_and_collect_results ---------------------- *)
-Fixpoint with_levels (l : nat) (c : curve) : list result :=
-  match c with
-  | [] => []
-  | r :: c' => mkRes l (r_elapsed r) (r_metrics r) :: with_levels (S l) c'
+(* for fidelity, value in enumerate(all_fidelities): row objective_values[fidelity] gets level value *)
+Fixpoint with_levels (fs : list nat) (c : curve) : list result :=
+  match fs, c with
+  | f :: fs', r :: c' => mkRes f (r_elapsed r) (r_metrics r) :: with_levels fs' c'
+  | _, _ => []
   end.
+(* min(blackbox.fidelity_values) *)
+Definition fid_min : nat := match fidelities S_ with [] => O | f :: r => fold_left Nat.min r f end.
 
-(* fidelity_range[0] <= value <= fidelity_range[1], fidelity_range[0] = 1 *)
+(* fidelity_range[0] <= value <= fidelity_range[1], fidelity_range[0] = min(fidelity_values) <= value *)
 Definition in_range (c : config) (r : result) : bool :=
   match c_maxres c with None => true | Some m => Nat.leb (res_level r) m end.
 
@@ -178,14 +183,14 @@ Definition num_seeds : nat := match tbl with [] => O | c :: _ => length c end.
 
 (* config_objectives / metrics_for_configuration / BlackboxTabular._objective_function *)
 Definition all_results (c : config) (seed : nat) : res (list result) :=
-  if match c_maxres c with Some m => Nat.ltb m 1 | None => false end then Err EAssert
+  if match c_maxres c with Some m => Nat.ltb m fid_min | None => false end then Err EAssert
   else if negb (Nat.ltb seed num_seeds) then Err EAssert
   else match nth_error tbl (c_idx c) with
        | None => Err EValue
        | Some per_seed =>
            match nth_error per_seed seed with
            | None => Err EIndex
-           | Some cv => Ok (filter (in_range c) (with_levels 1 cv))
+           | Some cv => Ok (filter (in_range c) (with_levels (fidelities S_) cv))
            end
        end.
 
